@@ -447,6 +447,29 @@ CHECKS["C16"] = {
                     "(start, end) and sizes range over the small log (decimal parsing of 64-bit values is exercised on those); larger trees are outside the claim"],
 }
 
+# ---------------------------------------------------------------- C20
+SKYLIGHT = {"pkg": "filippo.io/sunlight/cmd/skylight", "pkgname": "main"}
+c20_cases = [case("checkLog: every combination of key, origin, final tree, symbolic times", "VerifC20Log", [], ["healthy", "sunset", "unhealthy"], Q)]
+for b in (0, 1, 2):
+    c20_cases.append(case("witness directory, broken=%d" % b, "VerifC20Witness", [0, 3, b], ["healthy"] if b == 0 else ["unhealthy"], Q))
+for size in (1, 2, 3, 4):
+    for b in (0, 3, 4):
+        c20_cases.append(case("mirror of %d entries, broken=%d" % (size, b), "VerifC20Witness", [1, size, b], ["healthy"] if b == 0 else ["unhealthy"], Q))
+for b in (1, 2, 5, 6, 7):
+    c20_cases.append(case("mirror of 3 entries, broken=%d" % b, "VerifC20Witness", [1, 3, b], ["unhealthy"], Q))
+for size in (5, 8):
+    for b in (0, 3, 4, 5):
+        c20_cases.append(case("mirror of %d entries, broken=%d" % (size, b), "VerifC20Witness", [1, size, b], ["healthy"] if b == 0 else ["unhealthy"], T))
+CHECKS["C20"] = {
+    "level": "model_checking",
+    "jobs": [dict(SKYLIGHT, harness=["cmd_skylight/zz_verif_c20.go"], native=False, cases=c20_cases)],
+    "bounds": {"quick": "checkLog: signing key right/wrong, origin right/wrong, final tree absent / matching / wrong hash / wrong size / wrong timestamp, time past the NotAfter limit and checkpoint age fully symbolic (64-bit durations); "
+                        "witness directories and mirrors of 1-4 entries with one condition broken at a time (unpublished key, wrong directory name, one arbitrary byte of the right-edge tile at any position, missing tile, mirror ahead of pending, pending not signed by the witness, pending of another origin)",
+               "thorough": "mirrors of 5 and 8 entries"},
+    "assumptions": [IDEAL_HASH, "ideal ECDSA / ML-DSA signatures", "in-memory fs.FS behind os.Root.FS; JSON metadata, x509.ParsePKIXPublicKey, time.Parse and vkey parsing are contracts; note.Open, torchwood (ParseCheckpoint, TileFS, TileHashReader, RightEdge) and tlog are executed from their real source",
+                    "the /health handler's aggregation loop (a closure inside main) is outside the claim: checkLog and witnessHealth.{loadVerifiers,hashes,check} are what is verified"],
+}
+
 # ---------------------------------------------------------------- manifest texts
 NOT_APPLICABLE = {}
 _WORLD_NOTE = ("environment = the ctlog world of DESIGN.md §3.1: in-memory object storage and a correct CAS lock store with per-operation crash/fault injection, "
@@ -495,6 +518,14 @@ MANIFEST_TEXT = {
     "C14": {
         "text": "bounded symbolic execution of processAddCheckpointRequest and updateCheckpoint (with the real note.Open/Sign, tlog.CheckTree and torchwood cosigners) over a forked log: sequences of requests with symbolic old size, new size, branch, proof and signature kind, lock/storage faults (applied or not) and witness restarts; all cosigned or published checkpoints lie on one branch with non-decreasing sizes, a checkpoint is recorded before its cosignature is released or published, and refusals carry the protocol's answers",
         "note": "logs of 3 (quick) / 5 (thorough) leaves; ideal hashing and signatures; witness configuration JSON modelled; concurrent requests = request orderings (updateCheckpoint is one critical section)",
+    },
+    "C16": {
+        "text": "bounded symbolic execution of processSignSubtreeRequest and splitSignatures with the real torchwood ValidSubtree/CheckSubtree/cosignature code and note.Open over a small forked log: every (start, end, checkpoint size), nine signer combinations on the presented checkpoint (including foreign and forged lines), right/wrong/other-branch subtree hash and right/corrupted proof; an answer implies an independently recomputed valid range within the checkpoint, the right subtree hash, and exactly one valid subtree cosignature per own ML-DSA key whose cosignature is on the checkpoint",
+        "note": "logs of 4 (quick) / 8 (thorough) leaves; ideal hashing and signatures; sizes and ranges beyond the small log are outside the claim",
+    },
+    "C20": {
+        "text": "bounded symbolic execution of checkLog and witnessHealth.loadVerifiers/hashes/check over in-memory directory trees with the real note, torchwood and tlog code: for logs every combination of key, origin and final-tree condition with fully symbolic clock differences is compared with an independent decision table (healthy / sunset / unhealthy); for witness and mirror directories each condition is broken alone (unpublished key, wrong directory, an arbitrary byte at any position of the right-edge tile, missing tile, mirror ahead of pending, pending not cosigned, foreign pending origin) and must turn the result into a failure that names the log",
+        "note": "the aggregation loop of the /health handler (a closure inside main) is not executed; metadata JSON, PKIX and vkey parsing are contracts; ideal signatures and hashing",
     },
     "C17": {
         "text": "bounded symbolic execution of addLeafToPool (size check, eviction, cancel channels), the wait closures, sequence and RunSequencer under a cooperative goroutine scheduler: arrival sequences with symbolic priorities and bytes into pools of size 0-3 with the eviction victim chosen by a symbolic map-iteration start; every arrival is checked against the admission rule, evicted entries are never sequenced, every submitter gets exactly one outcome, and after a stop (cancellation, read-only date with symbolic time, fatal lock error) every pending and future submission fails and nothing more is committed",
